@@ -686,6 +686,18 @@ type globalFactsT struct {
 }
 
 func (a *Analysis) globalFacts() *globalFactsT {
+	a.gfOnce.Do(func() { a.gf = a.computeGlobalFacts() })
+	return a.gf
+}
+
+// onceAssignment: the event is an assignment made by the body of a package-level sync.Once whose variables are read
+// only after that Once's Do has returned (start-up state established on first use – see globalFacts): not a write of
+// state that distinguishes one codec call from another.
+func (a *Analysis) onceAssignment(e *Event) bool {
+	return e != nil && e.Once && e.Fn != nil && a.globalFacts().startupOnly(e.Fn) && !isInitFunc(e.Fn) && e.Fn.Parent() != nil
+}
+
+func (a *Analysis) computeGlobalFacts() *globalFactsT {
 	inModule := func(g *ssa.Global) bool { return g.Pkg != nil && strings.HasPrefix(g.Pkg.Pkg.Path(), modulePath) }
 	// V1
 	var globals []*ssa.Global
@@ -1024,6 +1036,25 @@ func (a *Analysis) CheckC20(rep *Report, tier string) {
 				case *ssa.Call:
 					if c := in.Call.StaticCallee(); c != nil && strings.HasPrefix(fullName(c), "(*sync.Pool)") {
 						rep.Ob("V2-no-pool", name+":pool", false, a.P.Pos(in.Pos()), "codec path uses a sync.Pool: objects can be shared between calls")
+					}
+					// shared words: a codec path may atomically load the registry's published table (C19), nothing else
+					if c := in.Call.StaticCallee(); c != nil && c.Pkg == nil && c.Object() != nil && c.Object().Pkg() != nil && c.Object().Pkg().Path() == "sync/atomic" ||
+						c != nil && c.Pkg != nil && c.Pkg.Pkg.Path() == "sync/atomic" {
+						okAtomic := false
+						if strings.HasSuffix(fullName(c), ".Load") && len(in.Call.Args) > 0 {
+							if fa, isFA := in.Call.Args[0].(*ssa.FieldAddr); isFA {
+								if pt, isP := fa.X.Type().Underlying().(*types.Pointer); isP {
+									if n, isN := pt.Elem().(*types.Named); isN {
+										for _, gs := range guarded {
+											if gs.Struct == n && gs.COW && gs.MapField == fa.Field {
+												okAtomic = true
+											}
+										}
+									}
+								}
+							}
+						}
+						rep.Ob("V2-no-atomics-on-codec-paths", name+":"+fullName(c), okAtomic, a.P.Pos(in.Pos()), "codec path uses "+fullName(c)+": a shared word written or read outside the registry's published table is state shared between calls")
 					}
 				}
 			}
